@@ -91,6 +91,7 @@ impl<E: StarkField> ToElements<E> for Context {
     ///
     /// The elements are laid out as follows:
     /// - trace info [2 or more elements].
+    /// - length of the trace metadata in bytes [1 element, only when the metadata is not empty].
     /// - field modulus bytes [2 field elements].
     /// - field extension and FRI parameters [1 element].
     /// - grinding factor [1 element].
@@ -99,6 +100,12 @@ impl<E: StarkField> ToElements<E> for Context {
     fn to_elements(&self) -> Vec<E> {
         // convert trace layout
         let mut result = self.trace_info.to_elements();
+
+        // trace metadata is zero-padded into field elements, so metadata which differs only in
+        // trailing zero bytes maps to the same elements; bind the length to tell them apart
+        if !self.trace_info.meta().is_empty() {
+            result.push(E::from(self.trace_info.meta().len() as u32));
+        }
 
         // convert field modulus bytes into 2 elements
         let num_modulus_bytes = self.field_modulus_bytes.len();
